@@ -462,7 +462,8 @@ func runNative(l *Loaded, pkgRel, tmp string, env []string) (string, error) {
 	funcs := l.harnessFuncs(modPath + "/" + pkgRel)
 	pkgName := l.pkgs[modPath+"/"+pkgRel].Pkg.Name()
 	var sb strings.Builder
-	sb.WriteString("//go:build verif\n\npackage " + pkgName + "\n\nimport (\n\t\"testing\"\n\tzz \"" + modPath + "/internal/zzverif\"\n)\n\n")
+	modDir, modPattern, zzImport := moduleOf(pkgRel)
+	sb.WriteString("//go:build verif\n\npackage " + pkgName + "\n\nimport (\n\t\"testing\"\n\tzz \"" + zzImport + "\"\n)\n\n")
 	sb.WriteString("func TestZZReplay(t *testing.T) {\n\tzz.RunReplay(t, map[string]func(){\n")
 	for _, f := range funcs {
 		sb.WriteString("\t\t\"" + f + "\": " + f + ",\n")
@@ -478,8 +479,8 @@ func runNative(l *Loaded, pkgRel, tmp string, env []string) (string, error) {
 	ovb, _ := json.Marshal(map[string]interface{}{"Replace": repl})
 	ovFile := filepath.Join(tmp, "overlay.json")
 	os.WriteFile(ovFile, ovb, 0o644)
-	cmd := exec.Command("go", "test", "-tags", "verif", "-vet=off", "-count=1", "-overlay", ovFile, "-run", "^TestZZReplay$", "-v", "./"+pkgRel)
-	cmd.Dir = repoDir
+	cmd := exec.Command("go", "test", "-tags", "verif", "-vet=off", "-count=1", "-overlay", ovFile, "-run", "^TestZZReplay$", "-v", modPattern)
+	cmd.Dir = modDir
 	cmd.Env = append(goEnv(), env...)
 	out, _ := cmd.CombinedOutput()
 	s := string(out)
